@@ -1,4 +1,4 @@
-------------------------------- MODULE Machine -------------------------------
+------------------------------- MODULE MachineN -------------------------------
 (***************************************************************************)
 (* The calculator as a state machine: a register file of dual numbers of   *)
 (* one type and one action per public operation / syntactic form.  TLC     *)
@@ -14,7 +14,7 @@
 (*   AbsentIsZero   zero-filling every operand leaves the dense result     *)
 (*                  unchanged (C07)                                        *)
 (***************************************************************************)
-EXTENDS Calc, Json, SequencesExt
+EXTENDS CalcN, Json, SequencesExt
 
 CONSTANTS Kind, N, M,     \* the type: Kind in {"Dual","DualVec",...}, dimensions
           NR,             \* number of registers
